@@ -13,11 +13,11 @@ import (
 
 func init() {
 	register("C10", propMeta{
-		Explanation: "Decides which data each deletion site can delete and that decode failures surface: (R1) who-may-delete table: the BlobStore.Remove / Registry.Remove call sites of package common are exactly the seven known deletion functions, and each deletion function is called only from its justified callers (live rollback, post-commit cleanup, dead-transaction log replay); (R2) deletions of data a committed state may reference happen only behind the commit point: in phase2Commit the cleanup is unreachable from the failure edge of the all-or-nothing registry update, and the log replay re-runs deleteObsoleteEntries / deleteTrackedItemsValues only when the dead transaction's last logged step shows it had passed the commit point; (R3) the node blobs declared obsolete after a commit are the post-flip INACTIVE ids of the updated handles and the ACTIVE ids (plus logical ids) of the removed handles, taken from the slices returned by activateInactiveNodes / touchNodes; (R4) value blobs: itemActionTracker.manage queues the old value id for deletion only on the path on which the item is re-keyed with a fresh id before its new value is written, so the live id is never queued; the deletion queue is reset only by getForRollbackTrackedItemsValues, which phase1Commit invokes in every attempt before (re)staging values - the ids queued by an abandoned attempt or by the merge replay are thereby dropped before they can reach cleanup; (R6) the undo functions that cannot tell own from foreign state run only under a strict guard that implies the step succeeded for this transaction (shared with C37.R4); (R5) decode failures on the read path are reported, not swallowed: every Unmarshal reachable in nodeRepositoryBackend.get and itemActionTracker.Get has its error returned.",
+		Explanation:  "Decides which data each deletion site can delete and that decode failures surface: (R1) who-may-delete table: the BlobStore.Remove / Registry.Remove call sites of package common are exactly the seven known deletion functions, and each deletion function is called only from its justified callers (live rollback, post-commit cleanup, dead-transaction log replay); (R2) deletions of data a committed state may reference happen only behind the commit point: in phase2Commit the cleanup is unreachable from the failure edge of the all-or-nothing registry update, and the log replay re-runs deleteObsoleteEntries / deleteTrackedItemsValues only when the dead transaction's last logged step shows it had passed the commit point; (R3) the node blobs declared obsolete after a commit are the post-flip INACTIVE ids of the updated handles and the ACTIVE ids (plus logical ids) of the removed handles, taken from the slices returned by activateInactiveNodes / touchNodes; (R4) value blobs: itemActionTracker.manage queues the old value id for deletion only on the path on which the item is re-keyed with a fresh id before its new value is written, so the live id is never queued; the deletion queue is reset only by getForRollbackTrackedItemsValues, which phase1Commit invokes in every attempt before (re)staging values - the ids queued by an abandoned attempt or by the merge replay are thereby dropped before they can reach cleanup; (R6) the undo functions that cannot tell own from foreign state run only under a strict guard that implies the step succeeded for this transaction (shared with C37.R4); (R5) decode failures on the read path are reported, not swallowed: every Unmarshal reachable in nodeRepositoryBackend.get and itemActionTracker.Get has its error returned.",
 		DoesNotCover: "That every id a deletion function receives at run time is unreferenced (a property of histories) is not decided; crash points are not enumerated (C08).",
 	}, runC10)
 	register("C11", propMeta{
-		Explanation: "Decides that every artifact class a transaction stages has an undo and that logs are removed on every terminal path: (R1) the undo table (shared with C07.R1): every persistent commit step has a guarded undo block calling the matching undo function in the live rollback and in the dead-transaction log replay; (R2) partial steps (shared with C07.R2); (R3) transaction logs are removed on every terminal path - rollback, cleanup, log replay (shared with C07.R4) - and the priority log is removed after a successful commit and by the live rollback once it may have been written; (R4) obsolete data is actually handed to deletion after a commit: cleanup passes getToBeObsoleteEntries() to deleteObsoleteEntries and getObsoleteTrackedItemsValues() to deleteTrackedItemsValues, and the functions that only BUILD log payloads do not consume the deletion queue that a later step reads. (R5) Undo discoverability, derived from the undo functions: rollbackUpdatedNodes finds the blobs it deletes through the inactive ids recorded in the registry, so commitUpdatedNodes must record them in the registry before, and only if that succeeded then, write the blobs.",
+		Explanation:  "Decides that every artifact class a transaction stages has an undo and that logs are removed on every terminal path: (R1) the undo table (shared with C07.R1): every persistent commit step has a guarded undo block calling the matching undo function in the live rollback and in the dead-transaction log replay; (R2) partial steps (shared with C07.R2); (R3) transaction logs are removed on every terminal path - rollback, cleanup, log replay (shared with C07.R4) - and the priority log is removed after a successful commit and by the live rollback once it may have been written; (R4) obsolete data is actually handed to deletion after a commit: cleanup passes getToBeObsoleteEntries() to deleteObsoleteEntries and getObsoleteTrackedItemsValues() to deleteTrackedItemsValues, and the functions that only BUILD log payloads do not consume the deletion queue that a later step reads. (R5) Undo discoverability, derived from the undo functions: rollbackUpdatedNodes finds the blobs it deletes through the inactive ids recorded in the registry, so commitUpdatedNodes must record them in the registry before, and only if that succeeded then, write the blobs.",
 		DoesNotCover: "Comparing the blob store / registry contents with the reachable set is a runtime matter and is not decided.",
 	}, runC11)
 }
@@ -292,7 +292,9 @@ func runC10(c *Ctx) {
 		}
 		ft := w.Fn(tg)
 		c.Analysed(ft)
-		c.Check(w.Reaches(ft, func(cs *CallSite) bool { return cs.Key == "var:common.getForRollbackTrackedItemsValues" || cs.Key == "field:common.getForRollbackTrackedItemsValues" }), r4,
+		c.Check(w.Reaches(ft, func(cs *CallSite) bool {
+			return cs.Key == "var:common.getForRollbackTrackedItemsValues" || cs.Key == "field:common.getForRollbackTrackedItemsValues"
+		}), r4,
 			"Transaction.getForRollbackTrackedItemsValues delegates to every backend's getter", ft.Decl.Pos(), "calls the backend function value", "the transaction-level getter no longer reaches the per-store getters", nil)
 	}
 
